@@ -251,8 +251,17 @@ func decryptSymmetricAEAD(aead cipher.AEAD, ciphertext []byte, nonce []byte, tag
 	}
 
 	// Add the tag at the end of the ciphertext
-	ciphertext = append(ciphertext, tag...)
-	return aead.Open(nil, nonce, ciphertext, associatedData)
+	return aead.Open(nil, nonce, joinCiphertextTag(ciphertext, tag), associatedData)
+}
+
+// joinCiphertextTag returns a new slice containing the ciphertext followed by the tag.
+// It never appends to ciphertext: that would write the tag into the caller's backing
+// array whenever the slice has spare capacity.
+func joinCiphertextTag(ciphertext []byte, tag []byte) []byte {
+	buf := make([]byte, len(ciphertext)+len(tag))
+	copy(buf, ciphertext)
+	copy(buf[len(ciphertext):], tag)
+	return buf
 }
 
 func encryptSymmetricAESKW(plaintext []byte, algorithm string, key []byte) (ciphertext []byte, err error) {
@@ -311,8 +320,7 @@ func decryptSymmetricChaCha20Poly1305(ciphertext []byte, algorithm string, key [
 	}
 
 	// Add the tag at the end of the ciphertext
-	ciphertext = append(ciphertext, tag...)
-	return aead.Open(nil, nonce, ciphertext, associatedData)
+	return aead.Open(nil, nonce, joinCiphertextTag(ciphertext, tag), associatedData)
 }
 
 func getChaCha20Poly1305Cipher(algorithm string, key []byte, nonce []byte) (aead cipher.AEAD, err error) {
